@@ -66,6 +66,12 @@ pub struct Case {
     /// a second, related request proved on the same instance right after the first one
     #[serde(default)]
     pub second: Option<Second>,
+    /// bits 0-1: how an externally computed witness vector writes its entries (0 = canonical [0,p),
+    /// 1 = balanced: v > (p-1)/2 as v - p, 2 = every non-zero entry as v - p, 3 = odd positions as
+    /// v - p); bit 2: the membership tree is a persistent one that is flushed, dropped and re-created
+    /// from its location between the registration history and the proof
+    #[serde(default)]
+    pub variant: u8,
 }
 
 #[derive(Clone, Debug, Serialize, Deserialize)]
@@ -210,14 +216,37 @@ pub fn case_strategy(entries: Vec<Entry>) -> BoxedStrategy<Case> {
             1 => crate::gens::fx().prop_map(|e| Some(Second::OtherEpoch(e))),
             1 => Just(Some(Second::Same)),
         ],
+        // external vector representation (bits 0-1) and, for one case in five, a persistent tree that
+        // is re-created from its location before proving (bit 2)
+        (0u8..4, prop_oneof![4 => Just(0u8), 1 => Just(4u8)]).prop_map(|(r, p)| r | p),
     )
-        .prop_map(|(req, pre, post, entry, place, second)| Case { req, pre, post, entry, place, second })
+        .prop_map(|(req, pre, post, entry, place, second, variant)| Case { req, pre, post, entry, place, second, variant })
         .boxed()
 }
 
 /// builds the tree (implementation + model) for a case; returns them
+fn persistent_cfg(dir: &std::path::Path) -> String {
+    format!("{{\"tree_config\": {{\"path\": {}, \"temporary\": false}}}}", serde_json::Value::String(dir.to_string_lossy().to_string()))
+}
+
 pub fn build_world(c: &Case) -> Result<(RLN, TreeModel), String> {
-    let mut r = new_rln(DEPTH);
+    let reopen = c.variant & 4 != 0;
+    let dir = std::env::temp_dir().join(format!("c01-{:016x}-{:?}", case_hash(c), std::thread::current().id()));
+    let res = build_world_at(c, reopen, &dir);
+    if reopen {
+        // the re-created instance keeps the location open; it is removed once the files are unlinked
+        let _ = std::fs::remove_dir_all(&dir);
+    }
+    res
+}
+
+fn build_world_at(c: &Case, reopen: bool, dir: &std::path::Path) -> Result<(RLN, TreeModel), String> {
+    let mut r = if reopen {
+        let _ = std::fs::remove_dir_all(dir);
+        RLN::new(DEPTH, Cursor::new(persistent_cfg(dir))).map_err(|e| format!("cannot create a persistent instance: {e}"))?
+    } else {
+        new_rln(DEPTH)
+    };
     let mut m = TreeModel::new(DEPTH, Fr::from(0u64));
     for op in &c.pre {
         apply_side(&mut r, &mut m, op, c.req.index)?;
@@ -239,6 +268,11 @@ pub fn build_world(c: &Case) -> Result<(RLN, TreeModel), String> {
     apply_side(&mut r, &mut m, &SideOp::QueryPath, c.req.index)?;
     for op in &c.post {
         apply_side(&mut r, &mut m, op, c.req.index)?;
+    }
+    if reopen {
+        r.flush().map_err(|e| format!("flush failed: {e}"))?;
+        drop(r);
+        r = RLN::new(DEPTH, Cursor::new(persistent_cfg(dir))).map_err(|e| format!("re-creating the persistent instance from its location failed: {e}"))?;
     }
     Ok((r, m))
 }
@@ -302,7 +336,27 @@ pub fn prove_via(r: &mut RLN, m: &TreeModel, c: &Case) -> Result<Vec<u8>, String
                 RefOut::Reject(e) => return Err(format!("the reference witness generator rejects a valid assignment: {e}")),
                 _ => unreachable!(),
             };
-            let vec: Vec<BigInt> = full.into_iter().map(BigInt::from).collect();
+            // how the external tool writes field elements: canonical, balanced or negative representatives
+            let pm: BigUint = crate::models::field::p().clone();
+            let half = (&pm - 1u32) / 2u32;
+            let repr = c.variant & 3;
+            let vec: Vec<BigInt> = full
+                .into_iter()
+                .enumerate()
+                .map(|(i, v)| {
+                    let neg = match repr {
+                        0 => false,
+                        1 => v > half,
+                        2 => v != BigUint::from(0u32),
+                        _ => i % 2 == 1 && v != BigUint::from(0u32),
+                    };
+                    if neg {
+                        BigInt::from(v) - BigInt::from(pm.clone())
+                    } else {
+                        BigInt::from(v)
+                    }
+                })
+                .collect();
             let key = rln::circuit::zkey_from_folder();
             match guarded(|| rln::protocol::generate_proof_with_witness(vec, key).map_err(|e| e.to_string())) {
                 Ok(Ok(p)) => {
@@ -426,7 +480,7 @@ impl Property for C01 {
         "C01"
     }
     fn rule(&self) -> String {
-        "(secret, leaf index, limit, message id, external nullifier, signal, tree history, entry point): field values boundary-weighted, index from {0, 1, 2^19-1, 2^19, 2^20-2, 2^20-1, right half, uniform}, limit from {1, 2, 100, 65535, 65536, uniform}, message id from {0, limit-1, uniform}, signals of length 0..12000 incl. Keccak block edges; 0..3 tree operations (set/delete/range write/removal-only batch / registration of 2100..5000 other members in one request on the sibling, the other half, neighbours, first/last, uniform positions, and reads of the prover's own membership path) before and after the rate commitment is placed (set_leaf, set_leaves_from or set_next_leaf); four entry points (tree state, caller-supplied witness, raw prove with independently assembled witness and values, externally computed witness vector from the reference generator); 4 in 9 cases prove a second, related request on the same instance right afterwards (another signal / message id / external nullifier / the same request again). A quarter of the cases have every verification call made by a second long-lived thread of the caller (taking turns with the thread that proves and changes the tree). \
+        "(secret, leaf index, limit, message id, external nullifier, signal, tree history, entry point): field values boundary-weighted, index from {0, 1, 2^19-1, 2^19, 2^20-2, 2^20-1, right half, uniform}, limit from {1, 2, 100, 65535, 65536, uniform}, message id from {0, limit-1, uniform}, signals of length 0..12000 incl. Keccak block edges; 0..3 tree operations (set/delete/range write/removal-only batch / registration of 2100..5000 other members in one request on the sibling, the other half, neighbours, first/last, uniform positions, and reads of the prover's own membership path) before and after the rate commitment is placed (set_leaf, set_leaves_from or set_next_leaf); four entry points (tree state, caller-supplied witness, raw prove with independently assembled witness and values, externally computed witness vector from the reference generator); 4 in 9 cases prove a second, related request on the same instance right afterwards (another signal / message id / external nullifier / the same request again). An externally computed vector writes its entries as canonical, balanced (v > (p-1)/2 as v - p), negative (every non-zero entry as v - p) or alternating representatives; one case in five registers on a persistent tree that is flushed, dropped and re-created from its location before the proof is requested. A quarter of the cases have every verification call made by a second long-lived thread of the caller (taking turns with the thread that proves and changes the tree). \
          non-trivial = index >= 2^19, mid in {0, limit-1}, limit in {1, 2^16}, a boundary field value, or signal length 0 or >= 136; distinct by case content".into()
     }
     fn assumptions(&self) -> Vec<String> {
@@ -457,6 +511,12 @@ impl Property for C01 {
         }
         o.label(format!("entry/{:?}", c.entry));
         o.label(format!("place/{:?}", c.place));
+        if c.variant & 4 != 0 {
+            o.label("persistent-tree-re-created-before-proving");
+        }
+        if c.entry == Entry::ExternalWitness {
+            o.label(format!("external-vector/{}", ["canonical", "balanced", "negative", "alternating"][(c.variant & 3) as usize]));
+        }
         if !c.pre.is_empty() || !c.post.is_empty() {
             o.label("with-tree-history");
         }
